@@ -205,6 +205,11 @@ int main(int argc, char** argv) {
       ok = ok && (op == "put" ? db->Update(unhex(t[3]), unhex(t[4])) : db->MetaUpdate(unhex(t[3]), unhex(t[4])));
       ok = db->Close() && ok;
       out = ok ? "ok" : "fail";
+    } else if (op == "drop" && t.size() == 3) {
+      // the dictionary is lost (a new profile, a cleaned directory): the next Open re-creates it empty
+      use(t[1]);
+      rime::the<rime::Db> db(comp()->Create(t[2]));
+      out = !db->Exists() || db->Remove() ? "ok" : "fail";     // (whether an empty store existed is not an observation)
     } else if (op == "file" && t.size() == 3) {
       std::ofstream o(file_path(t[1]), std::ios::binary);
       o << unhex(t[2]);
